@@ -43,7 +43,7 @@ COMPONENTS = {
     "simulated": ["storage for the parquet step (fault-free)"],
 }
 EXPECTED_PROBES = ["step_slice", "step_take", "step_mask", "step_concat",
-                   "step_concat_slices_of_one_parent", "step_pickle",
+                   "step_concat_slices_of_one_parent", "non_dyadic_coordinates", "step_pickle",
                    "step_parquet", "step_series", "step_int", "invalid_request_checked",
                    "chain_depth_ge_3", "nonzero_offset_array", "take_ascending_with_repeats"]
 
@@ -60,6 +60,12 @@ def cases(tier, base_seed):
         subtype = rng.choice(gen.SUBTYPES)
         n = rng.choice((0, 1, 2, 5, 9, 14, 20))
         values = gen.gen_values(rng, kind, n, 0.2, 0.12, subtype)
+        tenths = subtype.startswith("float") and rng.random() < 0.3
+        if tenths:
+            # coordinates that are not dyadic: sums and products round, so a quantity that
+            # secretly depends on what else shares the buffer shows in the last bits (every
+            # oracle here compares the library with itself on the same element values)
+            values = gen.to_tenths(rng, values, f32=(subtype == "float32"))
         steps = []
         for _ in range(rng.randint(3, 30 if tier != "quick" else 18)):
             op = rng.choice(OPS)
@@ -72,6 +78,7 @@ def cases(tier, base_seed):
             steps.append(st)
         shape = rng.choice(("polygon", "line", "multipoint", "multipolygon", "point"))
         yield {"seed": seed, "kind": kind, "subtype": subtype, "values": values, "steps": steps,
+               "tenths": tenths,
                "shape": {"kind": shape, "value": gen.gen_element(rng, shape)}}
         i += 1
 
@@ -99,6 +106,8 @@ def run_case(case):
     case = {k: v for k, v in case.items() if k != "_truth"}
     kind, subtype = case["kind"], case["subtype"]
     probes, sig = {}, {"kind": kind, "subtype": subtype}
+    if case.get("tenths"):
+        probes["non_dyadic_coordinates"] = 1
     done = []
     bad = None
     seed = case["seed"]
